@@ -24,7 +24,7 @@ def signStep (X : Ctx α β) (priv e K : Bytes) : Option (Outcome (Bytes × Byte
     if c ≥ 0 ∨ K.all (· == 0) then none else
     match scalarBaseMult X K with
     | .ok kG =>
-      let x := Point.getAffineXUnsafe X.C kG
+      let x := Point.getAffineX X.C kG
       let eInt := Bytes.toNatBE e
       let rInt := (x + eInt) % X.n
       if rInt = 0 then none else
